@@ -24,7 +24,20 @@ func main() {
 	list := flag.Bool("list", false, "list properties with a registered check")
 	selftest := flag.String("selftest", "", "thorough: JSON result of tools/selftest.py for this property, merged into the evidence")
 	xref := flag.String("xref", "", "thorough: JSON with counts of the generic cross-reference tools (informational)")
+	inventory := flag.Bool("inventory", false, "print the function inventory of the tree (format of internal/inline/baseline.txt)")
 	flag.Parse()
+	if *inventory {
+		names, err := core.Inventory(*repo)
+		if err != nil {
+			fmt.Println("UNRESOLVED", err)
+			os.Exit(2)
+		}
+		fmt.Println("# functions of the tree the rules were written against (never inlined); regenerate with: gfs3check -inventory")
+		for _, n := range names {
+			fmt.Println(n)
+		}
+		return
+	}
 
 	if *list {
 		var ids []string
@@ -168,8 +181,8 @@ func mergeSelftest(run *core.Run, path string) {
 		return
 	}
 	var st struct {
-		Summary map[string]int     `json:"summary"`
-		Results [][]interface{}    `json:"results"`
+		Summary map[string]int  `json:"summary"`
+		Results [][]interface{} `json:"results"`
 	}
 	if err := json.Unmarshal(bts, &st); err != nil {
 		run.Unresolved("self-test result %s: %v", path, err)
